@@ -48,6 +48,8 @@ def run(ctx):
     ctx.do(rule_id_rule)
     ctx.do(rule_regexes)
     ctx.do(rule_tlp)
+    from .hidden_state import rule_no_hidden_state
+    ctx.do(rule_no_hidden_state, "C02.history-independence")
 
 
 # ---------------------------------------------------------------------------
